@@ -7,12 +7,13 @@ with arbitrary relative delay, receive-queue choice, one worker per queue, pool 
 all index arithmetic is the generated translation of the Go expressions (`Gen.Arith`).
 
 * `C13_full` — the property as stated (all ids, pool changes allowed) — is refuted by the current code:
-  `C13_counterexample` (a link joins between two sends), and, independently of pool changes,
-  `C13_sender_residue0_reorders` / `C13_receiver_residue0_reorders` (D13: an id ≡ 0 mod 255 gives
-  order byte 0 = round robin).
+  `C13_counterexample` (a link joins between two sends), `C13_counterexample_drop` (a link is lost).
 * `C13_partial` — constant pool, both order bytes non-zero, the pair's sends keep order ⇒ for EVERY
   interleaving of link deliveries and queue workers the pair's messages are routed in send order
   (delivered|pair is a prefix of sent|pair; sequence numbers strictly increase).
+* D13 (an id ≡ 0 mod 255 gave order byte 0 = round robin) is repaired in the repository
+  (`uint8(id%255) + 1` at all 65 sites); `orderByte_ne_zero` discharges the id hypotheses, giving
+  `C13_constant_pool` for ALL ids.
 -/
 namespace ErgoVerif.Props.C13
 open ErgoVerif.Link ErgoVerif.Gen.Arith
@@ -29,37 +30,42 @@ def C13_full : Prop :=
     ((run (init pool nq) tr).delivered.filter (pair src dst)).Sublist
       ((run (init pool nq) tr).sent.filter (pair src dst))
 
-/-- pool change: sender 2 uses link `2 % 2 = 0`; a third link joins; now `2 % 3 = 2`; the second frame
-    arrives first. -/
+/-- pool change: sender 2 (order byte 3) uses link `3 % 2 = 1`; a third link joins; now `3 % 3 = 0`; the second
+    frame arrives first. -/
 theorem C13_counterexample : ¬ C13_full := by
   intro h
-  have := h [0, 1] 8 [.send 2 1 true, .join 2, .send 2 1 true, .deliver 2, .work 1, .deliver 0, .work 1] 2 1
+  have := h [0, 1] 8 [.send 2 1 true, .join 2, .send 2 1 true, .deliver 0, .work 2, .deliver 1, .work 2] 2 1
     (by decide) (by intro e he a b k hk; simp at he; rcases he with rfl | rfl | rfl | rfl | rfl | rfl | rfl <;> simp_all)
   revert this
   decide
 
 /-- the same with a link LOSS instead of a join (`pool[i] = pool[0]; pool = pool[1:]` renumbers the links) -/
 theorem C13_counterexample_drop :
-    ¬ ((run (init [0, 1, 2] 12) [.send 1 1 true, .drop 2, .send 1 1 true, .deliver 0, .work 1, .deliver 1, .work 1]).delivered.filter (pair 1 1)).Sublist
-      ((run (init [0, 1, 2] 12) [.send 1 1 true, .drop 2, .send 1 1 true, .deliver 0, .work 1, .deliver 1, .work 1]).sent.filter (pair 1 1)) := by
+    ¬ ((run (init [0, 1, 2] 12) [.send 1 1 true, .drop 0, .send 1 1 true, .deliver 1, .work 2, .deliver 2, .work 2]).delivered.filter (pair 1 1)).Sublist
+      ((run (init [0, 1, 2] 12) [.send 1 1 true, .drop 0, .send 1 1 true, .deliver 1, .work 2, .deliver 2, .work 2]).sent.filter (pair 1 1)) := by
   decide
 
-/-- D13, sender side: id 255 has order byte 0, `send()` goes round robin over the links -/
-theorem C13_sender_residue0_reorders :
-    ¬ ((run (init [0, 1] 8) [.send 255 1 true, .send 255 1 true, .deliver 0, .work 1, .deliver 1, .work 1]).delivered.filter (pair 255 1)).Sublist
-      ((run (init [0, 1] 8) [.send 255 1 true, .send 255 1 true, .deliver 0, .work 1, .deliver 1, .work 1]).sent.filter (pair 255 1)) := by
-  decide
-
-/-- D13, receiver side: id 510 gives wire byte 0, `serve()` spreads the frames of ONE link over the queues -/
-theorem C13_receiver_residue0_reorders :
-    ¬ ((run (init [0] 4) [.send 1 510 true, .send 1 510 true, .deliver 0, .deliver 0, .work 2, .work 1]).delivered.filter (pair 1 510)).Sublist
-      ((run (init [0] 4) [.send 1 510 true, .send 1 510 true, .deliver 0, .deliver 0, .work 2, .work 1]).sent.filter (pair 1 510)) := by
-  decide
-
-/-- which ids are affected: exactly the multiples of 255 -/
-theorem orderByte_eq_zero_iff (x : Nat) : orderByte x = 0 ↔ x % 255 = 0 := by
+/-- D13 repaired (`uint8(id%255) + 1`): the order byte derived from an id is never 0, i.e. an id can no longer
+    select round robin by accident; only `KeepNetworkOrder = false` and the constant-0 control replies do -/
+theorem orderByte_ne_zero (x : Nat) : orderByte x ≠ 0 := by
   simp only [orderByte, orderForm1]
   omega
+
+theorem orderByte_range (x : Nat) : 1 ≤ orderByte x ∧ orderByte x ≤ 255 := by
+  simp only [orderByte, orderForm1]
+  omega
+
+/-- ids that differ by a multiple of 255 share a byte (so 255 classes; nothing else is lost) -/
+theorem orderByte_mod (x : Nat) : orderByte x = x % 255 + 1 := by
+  simp only [orderByte, orderForm1]
+  omega
+
+/-- the old D13 witnesses (sender id 255, receiver id 510) are now routed in order under the same adversarial
+    schedules -/
+example : ((run (init [0, 1] 8) [.send 255 1 true, .send 255 1 true, .deliver 0, .deliver 1, .work 2, .deliver 0, .deliver 1, .work 2]).delivered.map (·.seq)) = [0, 1] := by
+  decide
+example : ((run (init [0] 4) [.send 1 510 true, .send 1 510 true, .deliver 0, .deliver 0, .work 2, .work 1, .work 1]).delivered.map (·.seq)) = [0, 1] := by
+  decide
 
 /-- **C13_partial**: constant pool, non-zero order bytes, the pair's sends keep order ⇒ in every reachable
     state, for every interleaving, what was routed for the pair is a prefix of what was sent for the pair. -/
@@ -98,6 +104,21 @@ theorem C13_partial_complete (pool : List Nat) (nq : Nat) (tr : List Ev) (src ds
   have h := run_inv hs hd tr (init_inv pool nq src dst) hnp hk
   rw [← h.pipe, hl, hq]; simp
 
+/-- **constant pool, all ids**: with the repaired order byte no hypothesis on the ids is left — for every pool, every
+    number of queues, every pair of ids and every interleaving without a pool change, order is kept. -/
+theorem C13_constant_pool (pool : List Nat) (nq : Nat) (tr : List Ev) (src dst : Nat)
+    (hnp : ∀ e ∈ tr, e.isPoolChange = false)
+    (hk : ∀ e ∈ tr, ∀ k, e = Ev.send src dst k → k = true) :
+    (run (init pool nq) tr).delivered.filter (pair src dst) <+:
+      (run (init pool nq) tr).sent.filter (pair src dst) :=
+  C13_partial pool nq tr src dst hnp hk (orderByte_ne_zero src) (orderByte_ne_zero dst)
+
+theorem C13_constant_pool_seq (pool : List Nat) (nq : Nat) (tr : List Ev) (src dst : Nat)
+    (hnp : ∀ e ∈ tr, e.isPoolChange = false)
+    (hk : ∀ e ∈ tr, ∀ k, e = Ev.send src dst k → k = true) :
+    (((run (init pool nq) tr).delivered.filter (pair src dst)).map (·.seq)).Pairwise (· < ·) :=
+  C13_partial_seq pool nq tr src dst hnp hk (orderByte_ne_zero src) (orderByte_ne_zero dst)
+
 /-! ### the generated tables: every site uses the one modelled expression -/
 
 /-- all `order` / `orderPeer` definitions in connection.go are either the constant 0 (explicit round robin for
@@ -118,10 +139,10 @@ theorem data_paths_wired :
 
 /-! ### non-vacuity -/
 
-example : orderByte 1001 ≠ 0 ∧ orderByte 1005 ≠ 0 := by decide
+example : orderByte 1001 = 237 ∧ orderByte 1020 = 1 ∧ orderByte 254 = 255 := by decide
 example : (run (init [0, 1, 2] 12)
-    [.send 1001 1005 true, .send 1002 1005 true, .send 1001 1005 true, .deliver 2, .deliver 0, .work 0, .work 0]).delivered.length = 2 := by
+    [.send 1001 1005 true, .send 1002 1005 true, .send 1001 1005 true, .deliver 0, .deliver 1, .work 1, .work 1]).delivered.length = 2 := by
   decide
-example : ∀ e ∈ [Ev.send 1001 1005 true, .deliver 2, .work 0], e.isPoolChange = false := by decide
+example : ∀ e ∈ [Ev.send 1001 1005 true, .deliver 0, .work 1], e.isPoolChange = false := by decide
 
 end ErgoVerif.Props.C13
